@@ -105,4 +105,156 @@ Definition try_from_buint (w N : Z) (fuel : nat) (pb : Z) (ps : bool) (u : list 
     end
   ).
 
+(* src/bint/cast.rs: macro bint_as!, fn cast_from *)
+Definition bint_as_int (w N : Z) (fuel : nat) (pb : Z) (ps : bool) (from : list Z) : res Z :=
+  if (Core.is_negative w from) then (
+    let digits := from in
+    let out := (u_not pb (p_lit pb 0)) in
+    let i := 0 in
+    t3' <- while_loop (R := Z) fuel
+      (fun '(i, out) => (andb ((ix_shl i (digit_BIT_SHIFT w)) <? pb) (i <? N)))
+      (fun '(i, out) =>
+        t1' <- arr_get digits i ;;
+        t2' <- pint_shl pb (ud pb (u_not w t1')) (ix_shl i (digit_BIT_SHIFT w)) ;;
+        let out := (u_and out (u_not pb t2')) in
+        let i := (i + 1) in
+        Done (Continue (i, out)))
+      (i, out) ;;
+    match t3' with
+    | Exited (i, out) =>
+        Done (Cast.p_of_bits pb ps out)
+    | Returned t4' => Done t4'
+    end
+  ) else (
+    t5' <- buint_as_int w N fuel pb ps from ;;
+    Done t5'
+  ).
+
+(* src/bint/convert.rs: macro int_try_from_bint!, fn try_from *)
+Definition int_try_from_bint (w N : Z) (fuel : nat) (pb : Z) (ps : bool) (int : list Z) : res (Convert.result Z) :=
+  let neg := (Core.is_negative w int) in
+  let '(out, padding) := (if neg then ((p_lit pb (-1)), (u_max w)) else ((p_lit pb 0), 0)) in
+  let i := 0 in
+  if (w >? pb) then (
+    t1' <- arr_get int i ;;
+    let small := (ud pb t1') in
+    let trunc := (ud w (Cast.p_of_bits pb ps small)) in
+    t2' <- arr_get int i ;;
+    if (negb (t2' =? trunc)) then (
+      Done Convert.Err
+    ) else (
+      let out := small in
+      let i := 1 in
+      t4' <- while_loop (R := (Convert.result Z)) fuel
+        (fun i => (i <? N))
+        (fun i =>
+          t3' <- arr_get int i ;;
+          if (negb (t3' =? padding)) then (
+            Done (Return Convert.Err)
+          ) else (
+            let i := (i + 1) in
+            Done (Continue i)
+          ))
+        i ;;
+      match t4' with
+      | Exited i =>
+          if (xorb (p_is_neg pb ps out) neg) then (
+            Done Convert.Err
+          ) else (
+            Done (Convert.Ok (Cast.p_of_bits pb ps out))
+          )
+      | Returned t5' => Done t5'
+      end
+    )
+  ) else (
+    if neg then (
+      t8' <- while_loop (R := (Convert.result Z)) fuel
+        (fun '(i, out) => true)
+        (fun '(i, out) =>
+          let shift := (ix_shl i (digit_BIT_SHIFT w)) in
+          if (orb (i >=? N) (shift >=? pb)) then (
+            Done (Break (i, out))
+          ) else (
+            t6' <- arr_get int i ;;
+            t7' <- pint_shl pb (ud pb (u_not w t6')) shift ;;
+            let out := (u_and out (u_not pb t7')) in
+            let i := (i + 1) in
+            Done (Continue (i, out))
+          ))
+        (i, out) ;;
+      match t8' with
+      | Exited (i, out) =>
+          t11' <- while_loop (R := (Convert.result Z)) fuel
+            (fun i => (i <? N))
+            (fun i =>
+              t10' <- arr_get int i ;;
+              if (negb (t10' =? padding)) then (
+                Done (Return Convert.Err)
+              ) else (
+                let i := (i + 1) in
+                Done (Continue i)
+              ))
+            i ;;
+          match t11' with
+          | Exited i =>
+              if (xorb (p_is_neg pb ps out) neg) then (
+                Done Convert.Err
+              ) else (
+                Done (Convert.Ok (Cast.p_of_bits pb ps out))
+              )
+          | Returned t12' => Done t12'
+          end
+      | Returned t9' => Done t9'
+      end
+    ) else (
+      t15' <- while_loop (R := (Convert.result Z)) fuel
+        (fun '(i, out) => true)
+        (fun '(i, out) =>
+          let shift := (ix_shl i (digit_BIT_SHIFT w)) in
+          if (orb (i >=? N) (shift >=? pb)) then (
+            Done (Break (i, out))
+          ) else (
+            t13' <- arr_get int i ;;
+            t14' <- pint_shl pb (ud pb t13') shift ;;
+            let out := (u_or out t14') in
+            let i := (i + 1) in
+            Done (Continue (i, out))
+          ))
+        (i, out) ;;
+      match t15' with
+      | Exited (i, out) =>
+          t18' <- while_loop (R := (Convert.result Z)) fuel
+            (fun i => (i <? N))
+            (fun i =>
+              t17' <- arr_get int i ;;
+              if (negb (t17' =? padding)) then (
+                Done (Return Convert.Err)
+              ) else (
+                let i := (i + 1) in
+                Done (Continue i)
+              ))
+            i ;;
+          match t18' with
+          | Exited i =>
+              if (xorb (p_is_neg pb ps out) neg) then (
+                Done Convert.Err
+              ) else (
+                Done (Convert.Ok (Cast.p_of_bits pb ps out))
+              )
+          | Returned t19' => Done t19'
+          end
+      | Returned t16' => Done t16'
+      end
+    )
+  ).
+
+(* src/bint/convert.rs: macro uint_try_from_bint!, fn try_from *)
+Definition uint_try_from_bint (w N : Z) (fuel : nat) (pb : Z) (ps : bool) (int : list Z) : res (Convert.result Z) :=
+  if (Core.is_negative w int) then (
+    Done Convert.Err
+  ) else (
+    t1' <- try_from_buint w N fuel pb ps int ;;
+    Done t1'
+  ).
+
 End ConvGen.
